@@ -2,11 +2,42 @@
 import vselftest
 from checks import selfmut
 import json
+import os
+from concurrent.futures import ThreadPoolExecutor
+
+
+def model_checks(c, specs, jobs):
+    """jobs: (tla, cfg, workers, expect_violation). The TLC runs go side by side (a JVM start costs seconds);
+    model_check's bookkeeping is then done one after the other on their outputs. Returns {cfg: ok}."""
+    real = c._tlc
+
+    def one(j):
+        return real(specs, j[0], j[1], {}, j[2], os.path.join(c.scratch, "mcp-" + os.path.splitext(j[1])[0]), 3000,
+                    ("-noGenerateSpecTE",))
+    with ThreadPoolExecutor(len(jobs)) as ex:
+        outs = dict(zip([(j[0], j[1]) for j in jobs], ex.map(one, jobs)))
+    c._tlc = lambda specdir, tla, cfg, *a, **k: outs[(tla, cfg)]
+    try:
+        return {j[1]: c.model_check(specs, j[0], j[1], workers=j[2], expect_violation=j[3])[0] for j in jobs}
+    finally:
+        del c._tlc
+
+
+def desc_env(scn):
+    """names of the environment options the session ran under"""
+    return ",".join(sorted(e.split("=", 1)[0] for e in (scn["desc"].get("Env") or [])))
 
 
 def sig_of(rej, scn):
     steps = scn["desc"].get("Steps") or []
-    path = "panic" if any(s.startswith("panic") for s in steps) else "kill" if any(s.startswith("kill") for s in steps) else "close"
+    # the older signal steps share the path "kill"; the later ones (a signal beside a frame, beside a cursor
+    # change, during Suspend, ...) are named: a different schedule is a different way to go wrong
+    old_kill = ("kill", "kill3", "killrender", "killclose")
+    named = [s.rstrip("0123456789") for s in steps if s.startswith("kill") and s not in old_kill]
+    path = "panic" if any(s.startswith("panic") for s in steps) else named[0] if named else "kill" if any(s.startswith("kill") for s in steps) else "close"
+    env = desc_env(scn)
+    if env:
+        path += "+env:" + env
     flood = "+pending-input" if any(s in ("panic3", "kill3") for s in steps) else ""
     det = "+".join(sorted(rej.get("detail") or []))
     if rej.get("why") == "hang":
@@ -21,11 +52,29 @@ def main(c):
         "the terminal's initial pointer shape is 'text' (xterm default); the initial pen is the default pen",
         "a terminal that does not answer the cursor-style query starts with the default cursor style",
         "kill = SIGTERM delivered to a child process running the session; panic = fault injected at the verif hook before an input sequence is handled",
+        "the signal path's Close has returned once the console is closed; a closed console receives nothing",
+        "the library's environment options (VAXIS_FORCE_*) count as configuration: the statement speaks of every mode Vaxis changes when it starts",
     ]
     if not c.replay:
-        c.model_check(specs, "Lifecycle.tla", "MC_Lifecycle.cfg", workers=16)
-        ok, _ = c.model_check(specs, "Lifecycle.tla", "MC_Lifecycle_prefix.cfg", workers=4, expect_violation=True)
-        c.cov["prefix_model_violated_as_expected"] = not ok
+        # the repaired shape under every configuration and under the environment options; the four as-found
+        # shapes (modes pre-set at start reset on exit; environment options applied after the modes were
+        # enabled; a signal's Close between the halves of a frame; a signal's Close inside Suspend) must violate
+        oks = model_checks(c, specs, [
+            ("Lifecycle.tla", "MC_Lifecycle.cfg", 8, False),
+            ("Lifecycle.tla", "MC_Lifecycle_quirks.cfg", 4, False),
+            ("Lifecycle.tla", "MC_Lifecycle_prefix.cfg", 2, True),
+            ("Lifecycle.tla", "MC_Lifecycle_quirkslate.cfg", 2, True),
+            ("Lifecycle.tla", "MC_Lifecycle_sigframe.cfg", 2, True),
+            ("Lifecycle.tla", "MC_Lifecycle_sigsuspend.cfg", 2, True),
+        ])
+        for k in ("MC_Lifecycle.cfg", "MC_Lifecycle_quirks.cfg"):
+            if not oks[k]:
+                c.notes.append("the Lifecycle model (repaired shape) violates an invariant under %s: a spec bug or a candidate to replay" % k)
+        c.cov["prefix_model_violated_as_expected"] = not oks["MC_Lifecycle_prefix.cfg"]
+        c.cov["asfound_models_violated_as_expected"] = {
+            k: not oks["MC_Lifecycle_%s.cfg" % k] for k in ("prefix", "quirkslate", "sigframe", "sigsuspend")}
+        if not all(c.cov["asfound_models_violated_as_expected"].values()):
+            c.notes.append("an as-found shape of the Lifecycle model no longer violates: %s" % c.cov["asfound_models_violated_as_expected"])
     td = c.drive(drv, "c04", replay=c.replay)
     rejects, _ = c.validate_traces(specs, "Modes_Trace.tla", "Modes_Trace.cfg", td)
     if not c.replay:
@@ -33,16 +82,24 @@ def main(c):
             ("alternate screen not left", selfmut.altscreen_left_on),
             ("cursor left hidden", selfmut.cursor_left_hidden),
             ("kitty keyboard flags not popped", selfmut.kitty_not_popped),
+            ("hyperlink left open", selfmut.hyperlink_left_open),
+            ("mode 2027 left set", selfmut.unicode_core_left_set),
         ])
     idx = c.load_index(td)
     c.count_distinct(idx)
     for s in list(idx.values())[:3]:
         c.sample({"scenario": s["desc"]})
     cands = [(sig_of(r, idx[r["scn"]]), r, idx[r["scn"]]) for r in rejects]
-    c.confirm(drv, "c04", specs, "Modes_Trace.tla", "Modes_Trace.cfg", cands, sig_of)
+    # the steps that put a signal beside a frame depend on the goroutine schedule: up to three of the
+    # rejected scenarios of a signature are re-run
+    c.confirm(drv, "c04", specs, "Modes_Trace.tla", "Modes_Trace.cfg", cands, sig_of, tries=3)
     return c.finish(
         rule="scenario = capability set (8 mode-relevant bits) x DisableMouse x DisableKittyKeyboard x start table "
              "(kitty stack, cursor style, pre-set 2027/2031) x session template (frames, cursor/pointer changes, "
-             "Suspend/Resume cycles, Close, second Close, SIGTERM, injected panic, each also with pending input); "
-             "quick: 48+10 configurations, thorough: all 1024; distinct = distinct descriptor",
+             "Suspend/Resume cycles, Close, second Close, SIGTERM, injected panic, each also with pending input; SIGTERM "
+             "beside a frame on a slow terminal, at the start of and beside a large frame with hyperlinks, beside a "
+             "cursor change, before a late frame, inside Suspend), and capability set x environment option "
+             "(VAXIS_FORCE_WCWIDTH / _NOZWJ / _UNICODE, set for the child process of that session only) x session; "
+             "quick: 48+10+10 configurations, thorough: all 1024 (+256 under the environment options); "
+             "distinct = distinct descriptor",
         exhaustive=(c.tier == "thorough"))
